@@ -54,6 +54,10 @@ func (impl Implementation) Dormlq(side blas.Side, trans blas.Transpose, m, n, k 
 		panic(badLdA)
 	case !left && lda < max(1, n):
 		panic(badLdA)
+	case ldc < n:
+		// The leading dimension is not compared with max(1,n): existing
+		// callers pass ldc == 0 for a matrix without columns.
+		panic(badLdC)
 	case lwork < max(1, nw) && lwork != -1:
 		panic(badLWork)
 	case len(work) < max(1, lwork):
@@ -62,7 +66,7 @@ func (impl Implementation) Dormlq(side blas.Side, trans blas.Transpose, m, n, k 
 
 	// Quick return if possible.
 	if m == 0 || n == 0 || k == 0 {
-		work[0] = 1
+		work[0] = float64(max(1, nw))
 		return
 	}
 
